@@ -44,4 +44,38 @@ LEVEL = {
                     'malformed classes and exhaustive short strings (their round-trip theorems are listed as not yet proved in DESIGN.md).',
             'design_ref': '5 C19',
             'note': _TB + 'time.Parse/Format are modelled for the one fixed layout, including the liberal forms time.Parse accepts (one-digit hour, fractional seconds).'},
+    'C08': {'text': 'Theorems on the command model: a copy that does not report success leaves an existing destination exactly as it was; a missing destination is created '
+                    'with its header synced; nothing differs => nothing written, no report; plus the two log-level facts (batch frame, window-local writes) the slot-wise '
+                    'equality rests on. PARTIAL: the end-to-end slot-wise equality over copy_core is not yet a single theorem; it is checked by running the real '
+                    'CopyCommand against the model (fetches of every archive after the copy, second copy, diff).',
+            'design_ref': '5 C08',
+            'note': _TB + 'Commands read the wall clock; the harness recovers the clock from the command output. filepath.Glob is an oracle.'},
+    'C09': {'text': 'Theorems: the listing is exactly the filter of the differing slots (in slot order, both values); clean iff no slot differs; value equality is NaN-aware '
+                    '(+0 = -0, last bit counts); verdict symmetric; self-comparison clean; verdicts of the comparison are ok/diff/err only.',
+            'design_ref': '5 C09',
+            'note': _TB + 'Which side is named when both files are missing depends on goroutine scheduling and is not compared.'},
+    'C10': {'text': 'Theorems for every float-operation record: the j-th summed value is the left fold of Value.Add over the files in glob order; Value.Add skips NaN; '
+                    'NaN when no file has a value; window/step of the first file; a single file sums to itself.',
+            'design_ref': '5 C10',
+            'note': _TB + '"NaN only if none has a value" holds up to IEEE overflow of the float sum itself (+Inf + -Inf), stated in the theorem.'},
+    'C11': {'text': 'Theorems: sum-copy is copy_core applied to the sum with NaN copying (so C08/C10 theorems apply), sum-diff is diff_core on the sum; a destination equal to the sum is clean; '
+                    'failure leaves an existing destination untouched. PARTIAL like C08 for the slot-wise equality.',
+            'design_ref': '5 C11', 'note': _TB},
+    'C12': {'text': 'Theorems: the view/sum and view-raw responses decode to exactly the header and series/point lists the handler encoded; the empty body is the not-exist answer; '
+                    'a text error body never decodes as a header. Every read command is run against a real server and against the directory and both are compared with the model.',
+            'design_ref': '5 C12',
+            'note': _TB + 'net/http is trusted to deliver the handler\'s bytes and headers; url.QueryEscape / ParseForm are exercised, not modelled.'},
+    'C16': {'text': 'Theorems: copy-like commands never answer diff and answer not-exist only for a missing source; no success => existing destination untouched; comparison verdicts are ok/diff/err. '
+                    'PARTIAL: absence of panic for all reachable file states is proved for the library calls (C01/C02 totality) but not yet restated over the command functions; '
+                    'the whole fault matrix is run against the real commands.',
+            'design_ref': '5 C16',
+            'note': _TB + 'A read-only destination directory cannot be exercised as root and is not part of the matrix.'},
+    'C18': {'text': 'Theorems: view emits one record per slot of each selected series with instant from+k*step and the k-th fetched value, archive then time order; '
+                    'view-raw shows a physical slot iff it lies in the requested range.',
+            'design_ref': '5 C18',
+            'note': _TB + 'Shortest-decimal float formatting is Go\'s own: printed values are parsed back with strconv.ParseFloat before comparison.'},
+    'C20': {'text': 'Theorems: generate refuses an existing file, the header is the requested one, without fill every slot is empty; the file is the batch update of the printed lists. '
+                    'The constraints on the printed lists (complete, bounded, coarse = sum of covered finer slots) are checked on the output of every real run.',
+            'design_ref': '5 C20',
+            'note': _TB + 'math/rand is an oracle; the wall clock is read by the command (small steps make every alignment of the instant occur).'},
 }
